@@ -62,6 +62,7 @@ type pWorld struct {
 	cancellers    []*simrt.Task
 	cxErrs        int // calls that ended with the error of their own context
 	loss          *cacheLoss
+	slow          *slowStore
 }
 
 func (w *pWorld) wantCode(i int) int64 {
@@ -238,7 +239,11 @@ func (w *pWorld) checkCall(c *pCall, code int, err error) {
 			return
 		}
 		if !w.faulty {
-			if c.noscr > 0 && len(c.execs) == 0 && !errors.Is(err, breaker.ErrServiceUnavailable) {
+			if w.slow.delayed > w.noscript && w.cxErrs == 0 {
+				// nothing happened in this run except that the store took its time: every command was
+				// executed once and answered correctly within go-redis' timeouts
+				w.note(4, "period-error-store-healthy/store-slow-but-healthy", "Take on %s failed (%v) on a healthy, reachable store without any injected fault: the store was merely slow - %d commands so far were delayed by 1 ms - 2.9 s (%d of them by more than 100 ms, longest streak of those %d), each executed once and answered correctly within go-redis' 3 s timeouts; the server executed %d take(s) for this call", c.key.full, err, w.slow.delayed, w.slow.over, w.slow.longest, len(c.execs))
+			} else if c.noscr > 0 && len(c.execs) == 0 && !errors.Is(err, breaker.ErrServiceUnavailable) {
 				// the store is reachable and healthy; it told this call that it does not have the
 				// script (any more) and the call gave up instead of sending it
 				w.note(4, "period-error-store-healthy/script-cache-lost", "Take on %s failed (%v) on a healthy, reachable store without any injected fault: the server answered NOSCRIPT %d time(s) to this call and the script was never executed for it (script cache lost %d time(s) so far in this run, data kept)", c.key.full, err, c.noscr, w.loss.lost)
@@ -345,6 +350,12 @@ func periodRun(r *simrt.Run, tier string, faulty bool) {
 	}
 	// (all members: calls whose context is due to end are stretched across that instant)
 	w.loss = drawCacheLoss(r, srv, faulty)
+	// (fault-free member: the store may be slow but healthy, see slow_test.go)
+	w.slow = drawSlow(r, faulty)
+	if w.slow.on() {
+		r.Probe("period-slow-store")
+		pol = w.slow.policy()
+	}
 	srv.Fault = w.loss.wrap(cxFault(r, pol, func(task int) *cxPlan {
 		if c := w.cur[task]; c != nil {
 			return c.cx
@@ -369,7 +380,7 @@ func periodRun(r *simrt.Run, tier string, faulty bool) {
 		w.keys[prefix+k] = &pKey{full: prefix + k, cgrants: map[int]int{}}
 	}
 	if r.Tracing() {
-		r.Logf("period: period=%d quota=%d align=%v keys=%d tasks=%d ops=%d limiters=%d faulty=%v outage=%v offset=%v script-cache-loss=%v", w.period, w.quota, w.align, nKeys, nTasks, nOps, nLim, faulty, outage, offset, w.loss.sample())
+		r.Logf("period: period=%d quota=%d align=%v keys=%d tasks=%d ops=%d limiters=%d faulty=%v outage=%v offset=%v script-cache-loss=%v slow-healthy-store=%v", w.period, w.quota, w.align, nKeys, nTasks, nOps, nLim, faulty, outage, offset, w.loss.sample(), w.slow.sample())
 	}
 	if offset > 0 {
 		r.Sleep(offset)
@@ -472,6 +483,6 @@ func periodRun(r *simrt.Run, tier string, faulty bool) {
 	}
 	r.Sample(map[string]any{"component": "PeriodLimit", "faulty": faulty, "period_s": w.period, "quota": w.quota, "align": w.align, "keys": nKeys,
 		"client_tasks": nTasks, "takes_per_task": nOps, "limiter_instances": nLim, "cold_start_herd": herd, "initial_offset": offset.String(), "outage": outage, "calls_with_own_context_per_24": often,
-		"takes": w.takes, "client_grants": w.grants, "executed_takes": w.execs, "script_cache_lost": w.loss.sample(), "faults_fired": srv.FiredMap()})
+		"takes": w.takes, "client_grants": w.grants, "executed_takes": w.execs, "script_cache_lost": w.loss.sample(), "slow_healthy_store": w.slow.sample(), "faults_fired": srv.FiredMap()})
 	w.flush()
 }
